@@ -140,8 +140,17 @@ pub fn arb_liquidity_plan(p: &Profile) -> impl proptest::strategy::Strategy<Valu
                         0..=3 => 4, // withdrawal
                         4 | 5 => 3, // deposit
                         6 | 7 => 2, // swap
+                        8 if p2.hostile => 1, // a faucet (which, in a hostile profile, also forges liquidity tokens)
                         _ => 0,     // ordinary (splits and merges liquidity-token coins among others)
                     };
+                    if k == 1 {
+                        for o in t.outs.iter_mut() {
+                            o.denom = (o.denom / 5).min(50) * 5 + 4;
+                            if o.weight % 2 == 0 {
+                                o.weight = (o.weight / 7).min(35) * 7 + 6; // ... of a pool that does not exist yet
+                            }
+                        }
+                    }
                     t.kind = kind_byte(&p2, k, t.kind);
                     if focus && k == 3 {
                         t.pool = if t.pool % 2 == 0 { 0 } else { 65535 };
